@@ -1,20 +1,25 @@
 /-
-  MgrTruthCex2 — the added side condition `MarkRefOK` (Pk/Props/C06ReachSpec.lean) cannot be dropped.
+  MgrTruthCex2 — the facts contract `EvFeatOK` (Pk/Props/C06ReachSpec.lean: a definition that references a tag
+  reports the feature bit `fTags = 64`) cannot be dropped.
 
-  Witness: the state reached from the initial state by `importPcaps ["a.pcap"]`,
-  `importDone 1 2 [(0,[0,1])] [] [] [0,1]`, `addTag mark/m "id:0"`, `addTag tag/x "tag:m"` (the tagging job
-  for tag/x starts): mark/m = "id:0" matches exactly stream 0, tag/x = "tag:m" (mainT = [mark/m], mfeat = 0)
-  has both streams pending and its job in flight.  Event 1: `markDel mark/m [0]` (mark/m is now empty, so
-  tag/x matches nothing; the touched stream is recorded in `rst`).  Event 2: `tagDone tag/x [0]` (the search
-  result is the truth at job start).  Every other contract holds for both events (`Good`, `PayloadOK`,
-  `ImportAddsNew`, `TruthStep`, `ResultOK`, `JobTextOK`), but `rst` is not applied to tag/x (its definition
-  looks at ids only), so afterwards tag/x has `mat = [0]`, `unc = []` although stream 0 does not match.
+  Witness: the state `cex2S0` reached from the initial state by `importPcaps ["a.pcap"]`,
+  `importDone 1 2 [(0,[0,1])] [] [] [0,1]`, `addTag mark/m "id:0"`: mark/m = "id:0" matches exactly stream 0,
+  no job in flight.  History:
+    1. `addTag tag/x "tag:m"` with facts `main = [mark/m]`, `mfeat = 0` (VIOLATES `FeatRefOK`: the reference
+       is not reported in the features); the tagging job for tag/x starts;
+    2. `markDel mark/m [0]` (mark/m is now empty, so tag/x matches nothing; the touched stream is recorded in
+       `rst`);
+    3. `tagDone tag/x [0]` (the search result is the truth at job start).
+  Every other contract holds for all three events (`Good` of the start state, `PayloadOK`, `ImportAddsNew`,
+  `TruthStep`, `ResultOK`, `JobTextOK`), but `rst` is not applied to tag/x at the completion (its definition
+  claims to look at ids only), so afterwards tag/x has `mat = [0]`, `unc = []` although stream 0 does not
+  match.
 -/
 import Pk.Props.C06ReachSpec
 namespace Pk.Props.C06Reach
 open Pk.Mgr Pk.Props.MgrReach Pk.Proofs.MgrTruth Pk.Proofs.MgrTags
 
-/-- `StepOK` without `MarkRefOK` -/
+/-- `StepOK` without the facts contract `EvFeatOK` -/
 structure StepOK' (s : St) (T g : Truth) (e : Ev) (st : Started) (T' : Truth) : Prop where
   payload : PayloadOK s e
   addsNew : ImportAddsNew s e
@@ -22,61 +27,119 @@ structure StepOK' (s : St) (T g : Truth) (e : Ev) (st : Started) (T' : Truth) : 
   result : ResultOK s e g
   jobText : JobTextOK s e st T T'
 
+/-- `RunOK` without `EvFeatOK` -/
+def RunOK' (s : St) (T g : Truth) : Hist → Prop
+  | [] => True
+  | (e, st, T') :: rest => StepOK' s T g e st T' ∧ RunOK' (step s e st).1 T' (ghostNext s e T' g) rest
+
 /-! ## the witness -/
 
-/-- mark/m before the mark update -/
+/-- mark/m in the start state -/
+def cex2M0 : Tag :=
+  { defn := "id:0", mainT := [], subT := [], mfeat := 1, sfeat := 0, isMarkDef := true, mat := [0],
+    refBy := [], gen := 0 }
+/-- mark/m once tag/x references it -/
 def cex2M : Tag :=
   { defn := "id:0", mainT := [], subT := [], mfeat := 1, sfeat := 0, isMarkDef := true, mat := [0],
-    refBy := ["tag/x"] }
+    refBy := ["tag/x"], gen := 0 }
 /-- mark/m after the mark update -/
 def cex2M1 : Tag :=
   { defn := "id:-1", mainT := [], subT := [], mfeat := 1, sfeat := 0, isMarkDef := true, mat := [],
-    refBy := ["tag/x"] }
-/-- tag/x while its job is in flight (also the job's snapshot) -/
-def cex2X : Tag := { defn := "tag:m", mainT := ["mark/m"], subT := [], mfeat := 0, sfeat := 0, unc := [0, 1] }
+    refBy := ["tag/x"], gen := 0 }
+/-- tag/x while its job is in flight (also the job's snapshot): the reference is NOT reported in `mfeat` -/
+def cex2X : Tag :=
+  { defn := "tag:m", mainT := ["mark/m"], subT := [], mfeat := 0, sfeat := 0, unc := [0, 1], gen := 1 }
 /-- tag/x after the completion -/
 def cex2X2 : Tag :=
-  { defn := "tag:m", mainT := ["mark/m"], subT := [], mfeat := 0, sfeat := 0, mat := [0], unc := [] }
+  { defn := "tag:m", mainT := ["mark/m"], subT := [], mfeat := 0, sfeat := 0, mat := [0], unc := [], gen := 1 }
 
 /-- the start state -/
-def cexS : St :=
+def cex2S0 : St :=
+  { tags := [("mark/m", cex2M0)], idx := [0], files := [(0, [0, 1])], used := [(0, 1)],
+    next := 2, all := 2, nrec := 2, pcaps := ["a.pcap"], ngen := 1 }
+/-- after `addTag tag/x "tag:m"` (the job for tag/x is in flight) -/
+def cex2S1 : St :=
   { tags := [("mark/m", cex2M), ("tag/x", cex2X)], idx := [0], files := [(0, [0, 1])], used := [(0, 2)],
-    next := 2, all := 2, nrec := 2, pcaps := ["a.pcap"], tag := true, jTag := some ("tag/x", cex2X, [0]) }
+    next := 2, all := 2, nrec := 2, pcaps := ["a.pcap"], ngen := 2, tag := true,
+    jTag := some ("tag/x", cex2X, [0]) }
 /-- after `markDel mark/m [0]` -/
-def cexS1 : St :=
+def cex2S2 : St :=
   { tags := [("mark/m", cex2M1), ("tag/x", cex2X)], idx := [0], files := [(0, [0, 1])], used := [(0, 2)],
-    next := 2, all := 2, nrec := 2, pcaps := ["a.pcap"], tag := true, rst := [0],
+    next := 2, all := 2, nrec := 2, pcaps := ["a.pcap"], ngen := 2, tag := true, rst := [0],
     jTag := some ("tag/x", cex2X, [0]) }
 /-- after `tagDone tag/x [0]` -/
-def cexS2 : St :=
+def cex2S3 : St :=
   { tags := [("mark/m", cex2M1), ("tag/x", cex2X2)], idx := [0], files := [(0, [0, 1])], used := [(0, 1)],
-    next := 2, all := 2, nrec := 2, pcaps := ["a.pcap"], tag := false, rst := [0], jTag := none }
+    next := 2, all := 2, nrec := 2, pcaps := ["a.pcap"], ngen := 2, tag := false, rst := [0], jTag := none }
 
-def cexE1 : Ev := .markDel "mark/m" [0]
-def cexE2 : Ev := .tagDone "tag/x" [0]
+/-- the facts of event 1: a reference to mark/m, but no feature bit -/
+def cex2F : Facts := {err := false, main := ["mark/m"], sub := [], mfeat := 0, sfeat := 0, idsok := false, ids := []}
 
-/-- the truth before event 1 (and the ghost: the truth when the job for tag/x started): stream 0 -/
+def cex2E1 : Ev := .addTag "tag/x" "" "tag:m" cex2F
+def cex2E2 : Ev := .markDel "mark/m" [0]
+def cex2E3 : Ev := .tagDone "tag/x" [0]
+
+/-- the tagging choice of event 1 -/
+def cex2St1 : Started := { tag := some "tag/x" }
+
+/-- the truth before event 2 (and the ghost: the truth when the job for tag/x started): stream 0 -/
 def cex2T : Truth := fun _ id => decide (id = 0)
-/-- the truth after event 1: mark/m is empty, so nothing matches -/
+/-- the truth after event 2: mark/m is empty, so nothing matches -/
 def cex2T1 : Truth := fun _ _ => false
+
+/-- the history -/
+def cex2H : Hist := [(cex2E1, cex2St1, cex2T), (cex2E2, {}, cex2T1), (cex2E3, {}, cex2T1)]
 
 theorem cex2_markName : isMarkName "mark/m" = true := by simp [isMarkName]
 theorem cex2_tagName : isMarkName "tag/x" = false := by simp [isMarkName]
 
-/-- the model's transition for event 1 -/
-theorem cex2_step1 : step cexS cexE1 {} = (cexS1, .ok) := by
-  unfold cexE1
+/-! ## `parseTagName` on the name of the new tag -/
+
+theorem cex2_split : "tag/x".splitOn "/" = ["tag", "x"] := by
+  simp only [String.splitOn]
+  rw [if_neg (by decide)]
+  iterate 6 (rw [String.splitOnAux]; simp (decide := true) only [↓reduceIte])
+theorem cex2_parse : parseTagName "tag/x" = ("tag", "x", false) := by
+  unfold parseTagName
+  rw [cex2_split]
+  decide
+
+/-! ## the model's transitions -/
+
+theorem cex2_step1 : step cex2S0 cex2E1 cex2St1 = (cex2S1, .ok) := by
+  unfold cex2E1
+  rw [step_addTag_eq, cex2_parse]
+  rfl
+
+/-- the result code of event 1 (`TruthStep` looks at the result code with the default tagging choice) -/
+theorem cex2_res1 : (step cex2S0 cex2E1 {}).2 = .ok := by
+  unfold cex2E1
+  rw [step_addTag_eq, cex2_parse]
+  rfl
+
+theorem cex2_step2 : step cex2S1 cex2E2 {} = (cex2S2, .ok) := by
+  unfold cex2E2
   rw [step_markDel_eq]
   have hg : ("mark/m".startsWith "mark/" || "mark/m".startsWith "generated/") = true := by simp
   rw [hg]
   rfl
 
-/-- the model's transition for event 2 -/
-theorem cex2_step2 : step cexS1 cexE2 {} = (cexS2, .none) := rfl
+theorem cex2_step3 : step cex2S2 cex2E3 {} = (cex2S3, .none) := rfl
 
 /-! ## lookups in the literal tables -/
 
-theorem cex2_sget {n : String} {t : Tag} (h : sget cexS.tags n = some t) :
+theorem cex2_sget0 {n : String} {t : Tag} (h : sget cex2S0.tags n = some t) : n = "mark/m" ∧ t = cex2M0 := by
+  have h' : sget [("mark/m", cex2M0)] n = some t := h
+  rw [sget_cons] at h'
+  split at h'
+  · next hn => exact ⟨(by simpa using hn.symm), (Option.some.inj h').symm⟩
+  · simp [sget] at h'
+
+theorem cex2_mem0 {nt : String × Tag} (h : nt ∈ cex2S0.tags) : nt = ("mark/m", cex2M0) := by
+  have h' : nt ∈ [("mark/m", cex2M0)] := h
+  simpa using h'
+
+theorem cex2_sget1 {n : String} {t : Tag} (h : sget cex2S1.tags n = some t) :
     (n = "mark/m" ∧ t = cex2M) ∨ (n = "tag/x" ∧ t = cex2X) := by
   have h' : sget [("mark/m", cex2M), ("tag/x", cex2X)] n = some t := h
   rw [sget_cons] at h'
@@ -87,65 +150,50 @@ theorem cex2_sget {n : String} {t : Tag} (h : sget cexS.tags n = some t) :
     · next hn => exact Or.inr ⟨(by simpa using hn.symm), (Option.some.inj h').symm⟩
     · simp [sget] at h'
 
-theorem cex2_mem {nt : String × Tag} (h : nt ∈ cexS.tags) : nt = ("mark/m", cex2M) ∨ nt = ("tag/x", cex2X) := by
-  have h' : nt ∈ [("mark/m", cex2M), ("tag/x", cex2X)] := h
-  simpa using h'
-
-theorem cex2_sget1 {n : String} {t : Tag} (h : sget cexS1.tags n = some t) :
-    (n = "mark/m" ∧ t = cex2M1) ∨ (n = "tag/x" ∧ t = cex2X) := by
-  have h' : sget [("mark/m", cex2M1), ("tag/x", cex2X)] n = some t := h
-  rw [sget_cons] at h'
-  split at h'
-  · next hn => exact Or.inl ⟨(by simpa using hn.symm), (Option.some.inj h').symm⟩
-  · rw [sget_cons] at h'
-    split at h'
-    · next hn => exact Or.inr ⟨(by simpa using hn.symm), (Option.some.inj h').symm⟩
-    · simp [sget] at h'
-
-theorem cex2_job {jn : String} {snap : Tag} {held : List Nat} (h : cexS.jTag = some (jn, snap, held)) :
+theorem cex2_job1 {jn : String} {snap : Tag} {held : List Nat} (h : cex2S1.jTag = some (jn, snap, held)) :
     jn = "tag/x" ∧ snap = cex2X ∧ held = [0] := by
   have : ("tag/x", cex2X, [0]) = (jn, snap, held) := Option.some.inj h
   cases this
   exact ⟨rfl, rfl, rfl⟩
 
-theorem cex2_job1 {jn : String} {snap : Tag} {held : List Nat} (h : cexS1.jTag = some (jn, snap, held)) :
+theorem cex2_job2 {jn : String} {snap : Tag} {held : List Nat} (h : cex2S2.jTag = some (jn, snap, held)) :
     jn = "tag/x" ∧ snap = cex2X ∧ held = [0] := by
   have : ("tag/x", cex2X, [0]) = (jn, snap, held) := Option.some.inj h
   cases this
   exact ⟨rfl, rfl, rfl⟩
+
+theorem cex2_nojob0 {jn : String} {snap : Tag} {held : List Nat} (h : cex2S0.jTag = some (jn, snap, held)) : False := by
+  have h' : (none : Option (String × Tag × List Nat)) = some (jn, snap, held) := h
+  cases h'
+
+theorem cex2_sgetM1 : sget cex2S1.tags "mark/m" = some cex2M := rfl
+theorem cex2_sgetX1 : sget cex2S1.tags "tag/x" = some cex2X := rfl
 
 /-! ## the start state satisfies all invariants -/
 
-theorem cex2_refsM : cex2M.refs = [] := rfl
-theorem cex2_refsX : cex2X.refs = ["mark/m"] := rfl
-theorem cex2_sgetM : sget cexS.tags "mark/m" = some cex2M := rfl
-theorem cex2_sgetX : sget cexS.tags "tag/x" = some cex2X := rfl
-
-theorem cex2_reach : Reach cexS := by
+theorem cex2_reach : Reach cex2S0 := by
   refine ⟨?_, ?_, ?_, ?_, ?_, ?_, ?_, ?_, ?_, ?_, ?_, ?_, ?_, ?_, ?_, ?_⟩
-  · show List.Pairwise (· < ·) ["mark/m", "tag/x"]
-    simp only [List.pairwise_cons, List.mem_cons, List.not_mem_nil, or_false, forall_eq, false_imp_iff, implies_true,
-      List.Pairwise.nil, and_true]
-    decide
-  · simp [C09.JobsWF, cexS]
+  · show List.Pairwise (· < ·) ["mark/m"]
+    simp
+  · simp [C09.JobsWF, cex2S0]
   · refine ⟨fun f => ?_, fun f => ?_, fun f => ?_, ?_, ?_, ?_, ?_, ?_⟩
     · by_cases hf : f = 0
       · subst hf; rfl
       · have h0 : (0 == f) = false := by simpa using fun h => hf h.symm
-        simp [C13.holders, C13.viewHeld, C13.jobHeld, cexS, nget, h0, List.count_cons]
+        simp [C13.holders, C13.viewHeld, C13.jobHeld, cex2S0, nget, h0, List.count_cons]
     · by_cases hf : f = 0
-      · subst hf; simp [cexS, nget]
+      · subst hf; simp [cex2S0, nget]
       · have h0 : (0 == f) = false := by simpa using fun h => hf h.symm
-        simp [cexS, nget, h0]
+        simp [cex2S0, nget, h0]
     · by_cases hf : f = 0
       · subst hf; rfl
       · have h0 : (0 == f) = false := by simpa using fun h => hf h.symm
-        simp [cexS, nget, h0]
-    · simp [cexS]
-    · simp [cexS]
-    · simp [cexS]
-    · simp [cexS]
-    · simp [cexS]
+        simp [cex2S0, nget, h0]
+    · simp [cex2S0]
+    · simp [cex2S0]
+    · simp [cex2S0]
+    · simp [cex2S0]
+    · simp [cex2S0]
   · intro jn held h; cases h
   · intro id hid
     refine ⟨0, List.mem_singleton.2 rfl, ?_⟩
@@ -156,119 +204,119 @@ theorem cex2_reach : Reach cexS := by
   · exact Nat.le_refl _
   · exact Nat.le_refl _
   · intro n t h id hid
+    obtain ⟨_, rfl⟩ := cex2_sget0 h
+    cases hid
+  · refine ⟨fun _ _ _ h => (cex2_nojob0 h).elim, fun _ h => (by cases h), fun _ h => (by cases h),
+      fun _ h => (by cases h), fun _ h => (by cases h), fun _ _ h => (by cases h)⟩
+  · refine ⟨fun nt h id hid => ?_, fun n snap held h => (cex2_nojob0 h).elim⟩
     show id < 2
-    rcases cex2_sget h with ⟨_, rfl⟩ | ⟨_, rfl⟩
-    · cases hid
-    · have : id ∈ [0, 1] := hid
-      simp only [List.mem_cons, List.not_mem_nil, or_false] at this
-      omega
-  · refine ⟨?_, fun _ h => (by cases h), fun _ h => (by cases h), fun _ h => (by cases h),
-      fun _ h => (by cases h), fun _ _ h => (by cases h)⟩
-    intro n snap held h id hid
-    obtain ⟨_, rfl, _⟩ := cex2_job h
-    show id < 2
-    have : id ∈ [0, 1] := hid
+    rw [cex2_mem0 h] at hid
+    have : id ∈ [0] := hid
     simp only [List.mem_cons, List.not_mem_nil, or_false] at this
     omega
-  · refine ⟨fun nt h id hid => ?_, fun n snap held h id hid => ?_⟩
-    · show id < 2
-      rcases cex2_mem h with rfl | rfl
-      · have : id ∈ [0] := hid
-        simp only [List.mem_cons, List.not_mem_nil, or_false] at this
-        omega
-      · cases hid
-    · obtain ⟨_, rfl, _⟩ := cex2_job h
-      cases hid
   · intro n t h c hc
-    rcases cex2_sget h with ⟨_, rfl⟩ | ⟨_, rfl⟩ <;> cases hc
+    obtain ⟨_, rfl⟩ := cex2_sget0 h
+    cases hc
   · intro n t h c hc
-    rcases cex2_sget h with ⟨_, rfl⟩ | ⟨_, rfl⟩ <;> cases hc
-  · refine ⟨?_, ?_, ?_, ?_, ?_⟩
-    · intro n snap held ot hj hot _
-      obtain ⟨rfl, rfl, _⟩ := cex2_job hj
-      rcases cex2_sget hot with ⟨hn, _⟩ | ⟨_, rfl⟩
-      · exact absurd hn (by decide)
-      · exact ⟨rfl, rfl⟩
-    · intro n t h hm
-      rcases cex2_sget h with ⟨_, rfl⟩ | ⟨rfl, _⟩
-      · exact ⟨rfl, rfl⟩
-      · rw [cex2_tagName] at hm; cases hm
-    · intro n1 t1 n2 t2 h1 h2 hm1 hm2 _
-      rcases cex2_sget h1 with ⟨rfl, _⟩ | ⟨_, rfl⟩
-      · rw [cex2_markName] at hm1; cases hm1
-      · rcases cex2_sget h2 with ⟨rfl, _⟩ | ⟨_, rfl⟩
-        · rw [cex2_markName] at hm2; cases hm2
-        · exact ⟨rfl, rfl⟩
-    · intro n snap held hj hm
-      obtain ⟨rfl, _, _⟩ := cex2_job hj
-      rw [cex2_tagName] at hm; cases hm
-    · intro n snap held hj _ m ot hot hm _
-      obtain ⟨_, rfl, _⟩ := cex2_job hj
-      rcases cex2_sget hot with ⟨rfl, _⟩ | ⟨_, rfl⟩
-      · rw [cex2_markName] at hm; cases hm
-      · exact ⟨rfl, rfl⟩
-  · intro nt h r hr tr htr
-    rcases cex2_mem h with rfl | rfl
-    · rw [cex2_refsM] at hr; cases hr
-    · rw [cex2_refsX] at hr
-      have hr' : r = "mark/m" := by simpa using hr
-      subst hr'
-      rw [cex2_sgetM] at htr
-      cases htr
-      exact List.mem_singleton.2 rfl
+    obtain ⟨_, rfl⟩ := cex2_sget0 h
+    cases hc
+  · refine ⟨fun _ _ _ _ hj => (cex2_nojob0 hj).elim, ?_, ?_, fun _ _ _ hj => (cex2_nojob0 hj).elim,
+      fun _ _ _ hj => (cex2_nojob0 hj).elim⟩
+    · intro n t h _
+      obtain ⟨_, rfl⟩ := cex2_sget0 h
+      exact ⟨rfl, rfl⟩
+    · intro n1 t1 n2 t2 h1 _ hm1 _ _
+      obtain ⟨rfl, _⟩ := cex2_sget0 h1
+      rw [cex2_markName] at hm1; cases hm1
   · intro nt h r hr
-    rcases cex2_mem h with rfl | rfl
-    · rw [cex2_refsM] at hr; cases hr
-    · rw [cex2_refsX] at hr
-      have hr' : r = "mark/m" := by simpa using hr
-      subst hr'
-      rw [cex2_sgetM]; rfl
-  · exact ⟨fun _ => rfl, fun c hc => (by cases hc)⟩
+    rw [cex2_mem0 h] at hr
+    cases hr
+  · intro nt h r hr
+    rw [cex2_mem0 h] at hr
+    cases hr
+  · refine ⟨?_, fun c hc => (by cases hc)⟩
+    rintro ⟨nt, h, he⟩
+    rw [cex2_mem0 h] at he
+    cases he
 
-theorem cex2_acyclic : C09.Acyclic cexS := rfl
+theorem cex2_acyclic : C09.Acyclic cex2S0 := rfl
 
-theorem cex2_inv : C06.Inv cexS cex2T := by
+theorem cex2_gens : GenInv cex2S0 := by
+  refine ⟨fun n t h => ?_, fun _ _ _ h => (cex2_nojob0 h).elim, fun n1 t1 n2 t2 h1 h2 _ => ?_⟩
+  · obtain ⟨_, rfl⟩ := cex2_sget0 h
+    show 0 < 1
+    decide
+  · rw [(cex2_sget0 h1).1, (cex2_sget0 h2).1]
+
+theorem cex2_feats : TagFeatInv cex2S0 := by
+  refine ⟨fun n t h => ?_, fun _ _ _ h => (cex2_nojob0 h).elim⟩
+  obtain ⟨_, rfl⟩ := cex2_sget0 h
+  exact ⟨fun h => absurd rfl h, fun h => absurd rfl h⟩
+
+theorem cex2_inv : C06.Inv cex2S0 cex2T := by
   intro n t h id hid hnu
-  have hid' : id < 2 := hid
-  rcases cex2_sget h with ⟨_, rfl⟩ | ⟨_, rfl⟩
-  · show id ∈ [0] ↔ decide (id = 0) = true
-    simp
-  · exfalso; apply hnu
-    show id ∈ [0, 1]
-    simp only [List.mem_cons, List.not_mem_nil, or_false]
-    omega
+  obtain ⟨_, rfl⟩ := cex2_sget0 h
+  show id ∈ [0] ↔ decide (id = 0) = true
+  simp
 
-theorem cex2_jobInv : JobInv cexS cex2T cex2T := by
-  intro jn snap held ot hj hot _
-  obtain ⟨rfl, rfl, _⟩ := cex2_job hj
-  rcases cex2_sget hot with ⟨hn, _⟩ | ⟨_, rfl⟩
-  · exact absurd hn (by decide)
-  · refine Or.inr ⟨rfl, rfl, fun id hid hne => ?_⟩
-    exfalso; apply hne
-    have hid' : id < 2 := hid
-    have hm : id ∈ cex2X.unc := by
-      show id ∈ [0, 1]
-      simp only [List.mem_cons, List.not_mem_nil, or_false]
-      omega
-    simp only [Ans, hm, if_true]
+theorem cex2_jobInv : JobInv cex2S0 cex2T cex2T := fun _ _ _ _ _ hj => (cex2_nojob0 hj).elim
 
-theorem cex2_good : Good cexS cex2T cex2T := ⟨cex2_reach, cex2_acyclic, cex2_inv, cex2_jobInv⟩
+theorem cex2_good : Good cex2S0 cex2T cex2T :=
+  ⟨cex2_reach, cex2_acyclic, cex2_gens, cex2_feats, cex2_inv, cex2_jobInv⟩
 
-/-! ## event 1: `markDel mark/m [0]` satisfies every contract but `MarkRefOK` -/
+/-! ## event 1: `addTag tag/x "tag:m"` satisfies every contract but `EvFeatOK` -/
 
-theorem cex2_payload1 : PayloadOK cexS cexE1 := ⟨trivial, trivial, trivial, trivial, trivial⟩
+theorem cex2_payload1 : PayloadOK cex2S0 cex2E1 := by
+  refine ⟨trivial, trivial, ?_, trivial, ?_, ?_, ?_, ?_⟩
+  · intro id hid; cases hid
+  · intro n snap held hj
+    exact (cex2_nojob0 hj).elim
+  · intro m t h hd
+    obtain ⟨_, rfl⟩ := cex2_sget0 h
+    exact absurd hd (by decide)
+  · intro h; cases h
+  · show isMarkName "tag/x" = true ↔ _
+    rw [cex2_parse, cex2_tagName]
+    constructor
+    · intro h; cases h
+    · intro h
+      rcases h with h | h <;> exact absurd h (by decide)
 
-theorem cex2_truth1 : TruthStep cexS cexE1 cex2T cex2T1 := by
+theorem cex2_truth1 : TruthStep cex2S0 cex2E1 cex2T cex2T := by
   refine ⟨fun h => ?_, fun _ => ?_⟩
-  · rw [cex2_step1] at h; cases h
-  · show if [0] = [] then SameOn cexS cex2T cex2T1 else
-      ∀ t, sget cexS.tags "mark/m" = some t →
-        (∀ id, id < cexS.next → (cex2T1 "mark/m" id = true ↔ (id ∈ t.mat ∧ id ∉ [0]))) ∧
-        ChangesIn cexS cexS.next
-          (fun n id => n = "mark/m" ∧ id < cexS.next ∧ cex2T1 "mark/m" id ≠ cex2T "mark/m" id) cex2T cex2T1
+  · rw [cex2_res1] at h; cases h
+  · show (∀ n, n ≠ "tag/x" → SameAt cex2S0 cex2T cex2T n) ∧
+      ((parseTagName "tag/x").2.2 = true → ∀ id, id < cex2S0.next → (cex2T "tag/x" id = true ↔ id ∈ cex2F.ids))
+    refine ⟨fun n _ t _ id _ => rfl, fun h => ?_⟩
+    rw [cex2_parse] at h; cases h
+
+theorem cex2_jobText1 : JobTextOK cex2S0 cex2E1 cex2St1 cex2T cex2T :=
+  fun _ _ _ hj => (cex2_nojob0 hj).elim
+
+theorem cex2_stepOK1 : StepOK' cex2S0 cex2T cex2T cex2E1 cex2St1 cex2T :=
+  ⟨cex2_payload1, trivial, cex2_truth1, trivial, cex2_jobText1⟩
+
+/-- the witness does violate the contract that is being dropped -/
+theorem cex2_not_featOK : ¬ EvFeatOK cex2E1 := by
+  intro h
+  have h' : FeatRefOK cex2F := h
+  exact h'.1 (by intro h; cases h) (by decide)
+
+/-! ## event 2: `markDel mark/m [0]` satisfies every contract -/
+
+theorem cex2_payload2 : PayloadOK cex2S1 cex2E2 := ⟨trivial, trivial, trivial, trivial, trivial⟩
+
+theorem cex2_truth2 : TruthStep cex2S1 cex2E2 cex2T cex2T1 := by
+  refine ⟨fun h => ?_, fun _ => ?_⟩
+  · rw [cex2_step2] at h; cases h
+  · show if [0] = [] then SameOn cex2S1 cex2T cex2T1 else
+      ∀ t, sget cex2S1.tags "mark/m" = some t →
+        (∀ id, id < cex2S1.next → (cex2T1 "mark/m" id = true ↔ (id ∈ t.mat ∧ id ∉ [0]))) ∧
+        ChangesIn cex2S1 cex2S1.next
+          (fun n id => n = "mark/m" ∧ id < cex2S1.next ∧ cex2T1 "mark/m" id ≠ cex2T "mark/m" id) cex2T cex2T1
     rw [if_neg (by simp)]
     intro t ht
-    rw [cex2_sgetM] at ht
+    rw [cex2_sgetM1] at ht
     cases ht
     refine ⟨fun id _ => ?_, ?_⟩
     · show false = true ↔ id ∈ [0] ∧ id ∉ [0]
@@ -280,78 +328,93 @@ theorem cex2_truth1 : TruthStep cexS cexE1 cex2T cex2T1 := by
         have : false ≠ decide (id = 0) := hne
         simpa using this
       subst h0
-      have hb : Dep cexS.tags cexS.next
-          (fun n id => n = "mark/m" ∧ id < cexS.next ∧ cex2T1 "mark/m" id ≠ cex2T "mark/m" id) "mark/m" 0 :=
+      have hb : Dep cex2S1.tags cex2S1.next
+          (fun n id => n = "mark/m" ∧ id < cex2S1.next ∧ cex2T1 "mark/m" id ≠ cex2T "mark/m" id) "mark/m" 0 :=
         Dep.base ⟨rfl, hid, by decide⟩
-      rcases cex2_sget ht with ⟨rfl, _⟩ | ⟨rfl, _⟩
+      rcases cex2_sget1 ht with ⟨rfl, _⟩ | ⟨rfl, _⟩
       · exact hb
-      · exact Dep.main cex2_sgetX (List.mem_singleton.2 rfl) hb
+      · exact Dep.main cex2_sgetX1 (List.mem_singleton.2 rfl) hb
 
-theorem cex2_jobText1 : JobTextOK cexS cexE1 {} cex2T cex2T1 := by
+/-- the mark tag is not the incarnation the job was started for (identity 0 against 1) -/
+theorem cex2_jobText2 : JobTextOK cex2S1 cex2E2 {} cex2T cex2T1 := by
   intro jn snap held hj
-  obtain ⟨rfl, _, _⟩ := cex2_job hj
-  intro (he : "mark/m" = "tag/x")
-  exact absurd he (by decide)
+  obtain ⟨_, rfl, _⟩ := cex2_job1 hj
+  show ∀ t, sget cex2S1.tags "mark/m" = some t → t.gen = cex2X.gen → _
+  intro t ht hg
+  rw [cex2_sgetM1] at ht
+  cases ht
+  exact absurd hg (by decide)
 
-theorem cex2_stepOK1 : StepOK' cexS cex2T cex2T cexE1 {} cex2T1 :=
-  ⟨cex2_payload1, trivial, cex2_truth1, trivial, cex2_jobText1⟩
+theorem cex2_stepOK2 : StepOK' cex2S1 cex2T cex2T cex2E2 {} cex2T1 :=
+  ⟨cex2_payload2, trivial, cex2_truth2, trivial, cex2_jobText2⟩
 
-/-- the witness does violate the condition that is being dropped -/
-theorem cex2_not_markRefOK : ¬ MarkRefOK cexS cexE1 := by
-  intro h
-  have := (h "tag/x" cex2X [0] rfl ⟨cex2X, rfl, rfl⟩).1 (List.mem_singleton.2 rfl)
-  exact this (by decide)
+/-! ## event 3: `tagDone tag/x [0]` satisfies every contract -/
 
-/-! ## event 2: `tagDone tag/x [0]` satisfies every contract -/
+theorem cex2_ghost1 : ghostNext cex2S0 cex2E1 cex2T cex2T = cex2T := rfl
+theorem cex2_ghost2 : ghostNext cex2S1 cex2E2 cex2T1 cex2T = cex2T := rfl
 
-theorem cex2_ghost : ghostNext cexS cexE1 cex2T1 cex2T = cex2T := rfl
-
-theorem cex2_payload2 : PayloadOK cexS1 cexE2 := by
+theorem cex2_payload3 : PayloadOK cex2S2 cex2E3 := by
   refine ⟨trivial, ?_, ?_, trivial, trivial⟩
   · intro jn snap held hj
-    exact (cex2_job1 hj).1
+    exact (cex2_job2 hj).1
   · intro id hid
     show id < 2
     have : id ∈ [0] := hid
     simp only [List.mem_cons, List.not_mem_nil, or_false] at this
     omega
 
-theorem cex2_truth2 : TruthStep cexS1 cexE2 cex2T1 cex2T1 :=
+theorem cex2_truth3 : TruthStep cex2S2 cex2E3 cex2T1 cex2T1 :=
   ⟨fun _ _ _ _ _ _ => rfl, fun _ _ _ _ _ _ => rfl⟩
 
-theorem cex2_result2 : ResultOK cexS1 cexE2 cex2T := by
+theorem cex2_result3 : ResultOK cex2S2 cex2E3 cex2T := by
   intro snap held hj id
-  obtain ⟨_, rfl, _⟩ := cex2_job1 hj
+  obtain ⟨_, rfl, _⟩ := cex2_job2 hj
   show id ∈ [0] ↔ id ∈ [0, 1] ∧ decide (id = 0) = true
   simp only [List.mem_cons, List.not_mem_nil, or_false, decide_eq_true_eq]
   omega
 
-theorem cex2_stepOK2 : StepOK' cexS1 cex2T1 cex2T cexE2 {} cex2T1 :=
-  ⟨cex2_payload2, trivial, cex2_truth2, cex2_result2, fun _ _ _ _ => trivial⟩
+theorem cex2_stepOK3 : StepOK' cex2S2 cex2T1 cex2T cex2E3 {} cex2T1 :=
+  ⟨cex2_payload3, trivial, cex2_truth3, cex2_result3, fun _ _ _ _ => trivial⟩
 
-/-! ## the final state decides stream 0 for tag/x wrongly -/
+/-! ## the run -/
 
-theorem cex2_not_inv : ¬ C06.Inv cexS2 cex2T1 := by
+theorem cex2_runOK : RunOK' cex2S0 cex2T cex2T cex2H := by
+  have e1 : (step cex2S0 cex2E1 cex2St1).1 = cex2S1 := by rw [cex2_step1]
+  have e2 : (step cex2S1 cex2E2 {}).1 = cex2S2 := by rw [cex2_step2]
+  refine ⟨cex2_stepOK1, ?_⟩
+  rw [e1, cex2_ghost1]
+  refine ⟨cex2_stepOK2, ?_⟩
+  rw [e2, cex2_ghost2]
+  exact ⟨cex2_stepOK3, trivial⟩
+
+theorem cex2_runSt : runSt cex2S0 cex2H = cex2S3 := by
+  show runSt (step cex2S0 cex2E1 cex2St1).1 _ = _
+  rw [cex2_step1]
+  show runSt (step cex2S1 cex2E2 {}).1 _ = _
+  rw [cex2_step2]
+  show runSt (step cex2S2 cex2E3 {}).1 _ = _
+  rw [cex2_step3]
+  rfl
+
+theorem cex2_runT : runT cex2T cex2H = cex2T1 := rfl
+
+/-- the final state decides stream 0 for tag/x wrongly -/
+theorem cex2_not_inv : ¬ C06.Inv cex2S3 cex2T1 := by
   intro h
-  have h1 : sget cexS2.tags "tag/x" = some cex2X2 := rfl
-  have h2 : (0 : Nat) < cexS2.next := by decide
+  have h1 : sget cex2S3.tags "tag/x" = some cex2X2 := rfl
+  have h2 : (0 : Nat) < cex2S3.next := by decide
   have := (h "tag/x" cex2X2 h1 0 h2 (by intro h; cases h)).1 (List.mem_singleton.2 rfl)
   cases this
 
-/-- without `MarkRefOK` "decided ⇒ correct" is not preserved: a mark update while the job of a tag that
-    references the mark tag directly (and looks at ids only) is in flight is lost at the completion -/
-theorem markRefOK_counterexample :
-    ¬ (∀ (s : St) (T g : Truth) (e1 : Ev) (st1 : Started) (T1 : Truth) (e2 : Ev) (st2 : Started) (T2 : Truth),
-        Good s T g → StepOK' s T g e1 st1 T1 →
-        StepOK' (step s e1 st1).1 T1 (ghostNext s e1 T1 g) e2 st2 T2 →
-        C06.Inv (step (step s e1 st1).1 e2 st2).1 T2) := by
+/-- without the facts contract `EvFeatOK` "decided ⇒ correct" is not preserved along histories: a tag whose
+    definition references a mark tag but whose facts do not report the tag-reference feature is created, its
+    job starts, the mark tag is updated (the touched stream goes to `rst`), and the completion does not apply
+    `rst` to the tag because its definition claims to look at ids only -/
+theorem featRefOK_counterexample :
+    ¬ (∀ (s : St) (T g : Truth) (h : Hist), Good s T g → RunOK' s T g h → C06.Inv (runSt s h) (runT T h)) := by
   intro h
-  have e1 : (step cexS cexE1 {}).1 = cexS1 := by rw [cex2_step1]
-  have e2 : (step cexS1 cexE2 {}).1 = cexS2 := by rw [cex2_step2]
-  have h2 : StepOK' (step cexS cexE1 {}).1 cex2T1 (ghostNext cexS cexE1 cex2T1 cex2T) cexE2 {} cex2T1 := by
-    rw [e1, cex2_ghost]; exact cex2_stepOK2
-  have := h cexS cex2T cex2T cexE1 {} cex2T1 cexE2 {} cex2T1 cex2_good cex2_stepOK1 h2
-  rw [e1, e2] at this
+  have := h cex2S0 cex2T cex2T cex2H cex2_good cex2_runOK
+  rw [cex2_runSt, cex2_runT] at this
   exact cex2_not_inv this
 
 end Pk.Props.C06Reach
